@@ -53,7 +53,8 @@ metatype::basic *metatype::basic::clone() const
 		errno = EINVAL;
 		return 0;
 	}
-	return create(static_cast<const char *>(vec.iov_base), vec.iov_len);
+	// used size includes the terminator (appended again for new value)
+	return create(static_cast<const char *>(vec.iov_base), vec.iov_len ? vec.iov_len - 1 : 0);
 }
 bool metatype::basic::set(const char *src, int len)
 {
